@@ -1,5 +1,5 @@
 import sys, time, logging, os
-sys.path.insert(0, '/repo'); sys.path.insert(0, '/verif')
+sys.path.insert(0, os.environ.get('VERIF_REPO', '/repo')); sys.path.insert(0, '/verif')
 logging.disable(logging.CRITICAL)
 from symx.runner import explore_family
 import importlib
